@@ -26,6 +26,7 @@ type specRecorder struct {
 	oldBase  map[string]bool   // heap keys written at a reference that existed before the loop
 	oldBases map[string]map[string]bool // ... and the (textual) references written, per key
 	ghostMod map[string]bool
+	callRecs map[string]callRec // most recent call records of callees called in the body (shape only)
 	wMoved   bool
 	epoch0   int
 	heldDiff bool
@@ -79,6 +80,15 @@ func (s *specRecorder) record(st *State) {
 		h, ok := s.headGhost[k]
 		if !ok || h.S != t.S {
 			s.ghostMod[k] = true
+			if strings.HasPrefix(k, "calls:") {
+				name := strings.TrimPrefix(k, "calls:")
+				if rec, has := st.lastCall[name]; has {
+					if s.callRecs == nil {
+						s.callRecs = map[string]callRec{}
+					}
+					s.callRecs[name] = rec
+				}
+			}
 		}
 	}
 	if len(st.held) != len(s.headHeld) {
@@ -262,6 +272,48 @@ func (r *Runner) loopEnter(st *State, f *Frame, hdr *ssa.BasicBlock) {
 		} else {
 			delete(st.ghost, k)
 		}
+	}
+	// call history: a callee called in the body has, at the head of an arbitrary iteration, an arbitrary most
+	// recent call (arguments and results of the right shape); invariants may constrain it
+	if len(rec.callRecs) > 0 {
+		names := make([]string, 0, len(rec.callRecs))
+		for n := range rec.callRecs {
+			names = append(names, n)
+		}
+		sort.Strings(names)
+		nl := make(map[string]callRec, len(st.lastCall)+len(names))
+		for k, v := range st.lastCall {
+			nl[k] = v
+		}
+		freshLike := func(v Val, hint string) Val {
+			if v.T == nil {
+				out := Val{C: make([]Term, len(v.C))}
+				for i, c := range v.C {
+					out.C[i] = Fresh(hint, c.Sort)
+				}
+				return out
+			}
+			nv := freshVal(hint, v.T)
+			st.assumeRange(nv)
+			st.assumeLoadedRefs(nv)
+			return nv
+		}
+		for _, n := range names {
+			shape := rec.callRecs[n]
+			if prev, had := nl[n]; had {
+				nl["prev:"+n] = prev
+			}
+			nr := callRec{valid: Fresh("lcvalid", SBool)}
+			for _, a := range shape.args {
+				nr.args = append(nr.args, freshLike(a, "lcarg"))
+			}
+			for _, a := range shape.rets {
+				nr.rets = append(nr.rets, freshLike(a, "lcret"))
+			}
+			nl[n] = nr
+			delete(nl, "prev:"+n)
+		}
+		st.lastCall = nl
 	}
 	st.bumpW()
 	// 4. assume invariants
